@@ -43,3 +43,67 @@ def run_all(verbose=False):
         KATS[name]()
         if verbose:
             print("  kat ok:", name)
+
+
+@register("ec-model", ["C01", "C02", "C09", "C05", "C04", "C06"])
+def _ec():
+    import hashlib
+    from dsim.models import ec
+    k1 = ec.SECP256K1
+    assert k1.on_curve(k1.G) and k1.mul(k1.n, k1.G) is None
+    assert k1.mul(2, k1.G) == (0xC6047F9441ED7D6D3045406E95C07CD85C778E4B8CEF3CA7ABAC09B95C709EE5,
+                               0x1AE168FEA63DC339A3C58419466CEAEEF7F632653266D0E1236431A950CFE52A)
+    assert k1.mul(3, k1.G) == (0xF9308A019258C31049344F85F89D5229B531C845836F99B08601F113BCE036F9,
+                               0x388F7B0F632DE8140FE337E62A37F3566500A99934C2231B6CB9FD7584B8E672)
+    assert k1.mul(-1, k1.G) == k1.neg(k1.G) == k1.mul(k1.n - 1, k1.G)
+    r1 = ec.SECP256R1
+    assert r1.on_curve(r1.G) and r1.mul(r1.n, r1.G) is None
+    b = ec.BLS12_381_G1
+    assert b.on_curve(b.G) and b.mul(b.n, b.G) is None
+    # RFC 6979 A.2.5 (P-256, SHA-256)
+    x = 0xC9AFA9D845BA75166B5C215767B1D6934E50C3DB36E89B127B8A622B120F6721
+    z = int.from_bytes(hashlib.sha256(b"sample").digest(), "big")
+    k = next(r1.rfc6979_candidates(x, z))
+    assert k == 0xA6E3C57DD01ABE90086538398355DD4C3B17AA873382B0F24D6129493D8AAD60
+    r, s, R, first = r1.sign_rfc6979(x, z)
+    assert r == 0xEFD48B2AACB6A8FD1140DD9CD45E81D69D2C877B56AAF991C34D0EA84EAF3716
+    assert s == 0xF7CB1C942D657C41D436C7A1B6E29F65F3E900DBB9AFF4064DC4AB2F843ACDA8 and first
+    Q = r1.mul(x, r1.G)
+    assert Q == (0x60FED4BA255A9D31C961EB74C6356D68C049B8923B61FA6CE669622E60F29FB6,
+                 0x7903FE1008B8BC99A41AE9E95628BC64F2F1B20C2D7E9F5177A3C294D4462299)
+    assert r1.verify(Q, z, r, s) and not r1.verify(Q, z + 1, r, s) and not r1.verify(Q, z, r, r1.n - s + 1)
+    z2 = int.from_bytes(hashlib.sha256(b"test").digest(), "big")
+    assert next(r1.rfc6979_candidates(x, z2)) == 0xD16B6AE827F17175E040871A1C7EC3500192C4C92677336EC2537ACAEE0008E0
+    r, s, _, _ = r1.sign_rfc6979(x, z2)
+    assert r == 0xF1ABB023518351CD71D881567B1EA663ED3EFCF6C5132B354F28D3B0B7D38367
+    assert s == 0x019F4113742A2B14BD25926B49C649155F267E60D3814B4C0CC84250E46F0083
+    # secp256k1, key 1, "Satoshi Nakamoto"
+    z3 = int.from_bytes(hashlib.sha256(b"Satoshi Nakamoto").digest(), "big")
+    assert next(k1.rfc6979_candidates(1, z3)) == 0x8F8A276C19F4149656B280621E358CCE24F5F52542772691EE69063B74F15D15
+    r, s, _, _ = k1.sign_rfc6979(1, z3)
+    assert r == 0x934b1ea10a4b3c1757e2b0c017d0b6143ce3c9a7e6a4a49860d7a6ab210ee3d8
+    assert min(s, k1.n - s) == 0x2442ce9d2b916064108014783e923ec36b49743e2ffa1c4496f01a512aafd9e5
+    assert k1.mul(1, k1.G) in k1.recover_candidates(z3, r, s)
+    # toy curves: group axioms by brute force on the smallest ones, order on all
+    toys = ec.toy_curves()
+    assert len(toys) >= 20
+    for c in toys:
+        assert c.on_curve(c.G) and c.mul_unreduced(c.n, c.G) is None and ec._is_prime(c.n) and c.p % 4 == 3
+    c = toys[0]
+    pts = [None]
+    for x in range(c.p):
+        l = c.lift_x(x)
+        if l:
+            pts.extend(dict.fromkeys(l))
+    assert len(pts) == c.n
+    for P in pts:
+        assert c.add(P, c.neg(P)) is None
+        for Q in pts:
+            assert c.add(P, Q) == c.add(Q, P) and c.on_curve(c.add(P, Q))
+            for R in pts[:5]:
+                assert c.add(c.add(P, Q), R) == c.add(P, c.add(Q, R))
+    acc = None
+    for kk in range(0, 3 * c.n):
+        assert c.mul(kk, c.G) == acc == c.mul_unreduced(kk, c.G)
+        assert c.mul(-kk, c.G) == c.neg(acc)
+        acc = c.add(acc, c.G)
